@@ -133,7 +133,10 @@ def c01(ctx):
     run_harness(["sweep", "--table", table, "--out", out, "--what", "triples"] + (["--thorough"] if ctx.thorough else []))
     r2 = json.load(open(out))
     sweep_to_violations(ctx, r2, "C01")
-    ctx.extra["sweep_space"] = {**r1["space"], **r2["space"]}
+    run_harness(["sweep", "--table", table, "--out", out, "--what", "pairs"] + (["--thorough"] if ctx.thorough else []))
+    r3 = json.load(open(out))
+    sweep_to_violations(ctx, r3, "C01")
+    ctx.extra["sweep_space"] = {**r1["space"], **r2["space"], **r3["space"]}
     ctx.exhaustive = True
     civil_samples(ctx, table, ("C01",))
     cases = ctx.path("cases.ndjson")
